@@ -62,12 +62,35 @@ def run(ctx):
 
 
 # ---------------------------------------------------------------------------------- (1) lock-step
-def level_base(e, L):
+def occupied_entry(e, L, q=None):
+    """key expression if e is the occupied entry of level map L at that key: `(L.entry(key) as Occupied).0`; else None"""
+    from analysis.origin import strip
+    e = strip(e)
+    hops = 0
+    while e[0] == "local" and q is not None and hops < 3:
+        # `let Entry::Occupied(mut level) = ..`: the binding is a local initialised once from the payload
+        hops += 1
+        defs = q.ev.def_sites().get(e[1], [])
+        if len(defs) != 1 or defs[0][0] != "s":
+            return None
+        st_ = q.body.blocks[defs[0][1]].stmts[defs[0][2]]
+        e = strip(q.ev.rvalue(st_.rv, (defs[0][1], defs[0][2])))
+    if e[0] == "field" and e[2] == "0" and e[1][0] == "downcast" and e[1][2] in ("Occupied", 1, "1"):
+        c = strip(e[1][1])
+        if c[0] == "call" and c[4] == "entry" and len(c[2]) == 2 and fld(c[2][0], L):
+            return c[2][1]
+    return None
+
+
+def level_base(e, L, q=None):
     """if address/value expression e goes through a level-map entry, return (kind, key expr, default):
     kind 'get_mut' (existing entry) or 'or_insert' (entry created with `default` when absent)"""
     for x in walk(e):
         if x[0] == "call" and x[4] == "get_mut" and x[2] and fld(x[2][0], L):
             return ("get_mut", x[2][1], None)
+        if x[0] == "call" and x[4] in ("get_mut", "into_mut") and len(x[2]) == 1 and occupied_entry(x[2][0], L, q) is not None:
+            # `let Entry::Occupied(mut level) = L.entry(key) else { panic }; level.get_mut()`: the existing entry at `key`
+            return ("get_mut", occupied_entry(x[2][0], L, q), None)
         if x[0] == "call" and x[4] in ("or_insert", "or_default") and x[2] and x[2][0][0] == "call" and x[2][0][4] == "entry" and fld(x[2][0][2][0], L):
             return ("or_insert", x[2][0][2][1], x[2][1] if len(x[2]) > 1 else ("agg", "tuple", "", (("const", "u32", "0", 0), ("const", "u32", "0", 0)), ()))
     return None
@@ -77,7 +100,7 @@ def level_updates(q, L):
     """writes to components of a level-map entry: list of (Write, component, op, operand, base)"""
     out = []
     for w in q.writes():
-        base = level_base(w.addr, L)
+        base = level_base(w.addr, L, q)
         if base is None or w.field not in ("0", "1"):
             continue
         b = bin_of(w.val)
@@ -154,7 +177,7 @@ def lockstep(ctx, m):
               "insert: side total is not increased by vol exactly once: %s" % "; ".join(w.text() for w in tw))
 
     # ---- remove
-    q = m.q(rem)
+    q = m.qi(rem)       # (a private helper such as `take_from_level(price, vol)` is spliced in)
     key, vol = params(q)[1:3]
     pc = map_calls(q, "remove", P)
     ok = len(pc) == 1 and unconditional(pc[0])
@@ -168,6 +191,9 @@ def lockstep(ctx, m):
     removed = pc[0].result if len(pc) == 1 else None
 
     def found_entry(a):
+        # (the level being present - `Entry::Occupied`, the other arm aborts like `get_mut(..).unwrap()` - is no condition)
+        if a[0] == "variant" and a[2] in (("Occupied",), (1,), ("1",)) and a[1][0] == "call" and a[1][4] == "entry" and a[1][2] and fld(a[1][2][0], L):
+            return True
         if removed is None:
             return False
         if a[0] == "variant" and a[1] == removed and a[2] == ("Some",):
@@ -186,13 +212,24 @@ def lockstep(ctx, m):
               "remove: level at key.1 gets volume -= vol and count -= 1",
               "remove: level update is not (volume -= vol, count -= 1) at key.1: %s" % "; ".join(u[0].text() for u in ups))
     drop = map_calls(q, "remove", L)
+    if not drop:
+        # `level.remove()` on the occupied entry of the level map at key.1
+        class _Drop:
+            def __init__(self, c, key_):
+                self.args = [c.args[0], key_]
+                self.guards = c.guards
+                self._c = c
+
+            def gtext(self):
+                return self._c.gtext()
+        drop = [_Drop(c, occupied_entry(c.args[0], L, q)) for c in q.calls(("remove", "remove_entry")) if c.args and occupied_entry(c.args[0], L, q) is not None]
 
     def count_zero(a):
         if a[0] != "cmp" or a[1] != "eq":
             return False
         x, y = a[2], a[3]
         for u, v in ((x, y), (y, x)):
-            if is_const(v, 0) and u[0] == "field" and u[2] == "1" and level_base(u, L) is not None:
+            if is_const(v, 0) and u[0] == "field" and u[2] == "1" and level_base(u, L, q) is not None:
                 return True
         return False
     ok = len(drop) == 1 and same(drop[0].args[1], kf(key, 1)) and any(count_zero(a) for a in drop[0].guards) and all(count_zero(a) or found_entry(a) for a in drop[0].guards)
@@ -224,6 +261,10 @@ def lockstep(ctx, m):
     for f in ctx.prog.find(crate="bourse_book", adt="OrderBookSide"):
         s = m.w.effects.summary(f)
         if s["writes"] and f.path not in allowed:
+            # a private helper called only from the three operations is part of them (judged on their inlined views)
+            cs_ = m.w.callers(f)
+            if not f.pub and cs_ and all(c_.path in allowed for c_ in cs_):
+                continue
             ctx.bad("lockstep", "other-writer|" + f.short(), ctx.loc(f), "%s mutates the side structure outside insert/remove/remove_vol: %s" % (f.short(), sorted(s["writes"])))
     side_queries(ctx, m)
 
